@@ -13,6 +13,7 @@ import (
 	"encoding/json"
 	"fmt"
 	"os"
+	"path"
 	"path/filepath"
 	"regexp"
 	"runtime"
@@ -230,13 +231,16 @@ func runCaseOnce(c *Case, keep bool) Result {
 	projSeq.n++
 	name := fmt.Sprintf("p%05d", projSeq.n)
 	projSeq.Unlock()
-	files := map[string]string{"gqlgen.yml": c.Config.YAML()}
-	for k, v := range c.Files {
-		files[k] = v
-	}
+	files, modDir := materialise(c)
+	paths := c.Config.Layout.Paths()
 	res := Result{Case: c, Step: 1}
 	t0 := time.Now()
-	gr, err := probe.Generate(probe.Spec{Name: name, Files: files, Stub: "graph/stub.go"})
+	projDir, err := probe.WriteProject(probe.Spec{Name: name, Files: files})
+	if err != nil {
+		common.Broken("cannot write the project for %s: %v", c.ID, err)
+	}
+	dir := filepath.Join(projDir, modDir) // the module directory: generator and builds run here
+	gr, err := probe.RunGenerator(dir, dir, paths.Stub)
 	if err != nil {
 		common.Broken("cannot run the generator for %s: %v", c.ID, err)
 	}
@@ -252,42 +256,41 @@ func runCaseOnce(c *Case, keep bool) Result {
 			break
 		}
 		t1 := time.Now()
-		out, err := probe.GoBuild(gr.Dir, "./...")
+		out, err := probe.GoBuild(dir, "./...")
 		res.BuildS += time.Since(t1).Seconds()
 		res.BuildOK, res.BuildOut = err == nil, out
 		if !res.BuildOK || res.Step == 2 {
 			break
 		}
-		if err := implementQsel(gr.Dir, c); err != "" {
+		if err := implementQsel(dir, c); err != "" {
 			res.BuildOK, res.BuildOut = false, err
 			break
 		}
 		res.Step = 2
 		t0 = time.Now()
-		dir := gr.Dir
-		gr, err = probe.RunGenerator(dir, dir, "graph/stub.go")
+		gr, err = probe.RunGenerator(dir, dir, paths.Stub)
 		if err != nil {
 			common.Broken("cannot run the generator again for %s: %v", c.ID, err)
 		}
 	}
 	if res.GenExit == 0 && res.BuildOK {
-		if b, err := os.ReadFile(filepath.Join(gr.Dir, "graph/stub.go")); err == nil {
+		if b, err := os.ReadFile(filepath.Join(dir, paths.Stub)); err == nil {
 			res.Resolvers = len(reStubField.FindAllIndex(b, -1))
 			if c.Kind == "naming" {
 				res.Collision = typeCollision(c.Atoms, string(b))
 			}
 		}
-		if _, ok := c.Files["cmd/harness/main.go"]; ok && res.Collision == "" {
+		if c.Harness != "" && res.Collision == "" {
 			var flake string
-			if res.Runtime, flake = runHarness(gr.Dir, c); flake != "" {
+			if res.Runtime, flake = runHarness(dir, c); flake != "" {
 				res.BuildOK, res.BuildOut = false, flake // re-run by runCase
 			}
 		}
 	}
 	if !keep {
-		os.RemoveAll(gr.Dir)
+		os.RemoveAll(projDir)
 	} else {
-		fmt.Printf("kept %s in %s\n", c.ID, gr.Dir)
+		fmt.Printf("kept %s in %s\n", c.ID, projDir)
 	}
 	return res
 }
@@ -311,7 +314,7 @@ func implementQsel(dir string, c *Case) string {
 	}
 	file := filepath.Join(dir, "resolvers/resolver.go")
 	if c.Config.Layout.Resolver == "follow-schema" {
-		file = filepath.Join(dir, "graph/naming.resolvers.go")
+		file = filepath.Join(dir, c.Config.Layout.Paths().ExecDir, "naming.resolvers.go")
 	}
 	b, err := os.ReadFile(file)
 	if err != nil || !reQselBody.Match(b) {
@@ -446,21 +449,48 @@ func runAll(c *common.Check, cases []*Case, keep bool, grace bool) []*Result {
 func featureCase(cfg Config) *Case {
 	files := featureFiles()
 	cs := &Case{ID: "feature|" + cfg.ID(), Kind: "feature", Schema: "feature", Config: cfg, Files: files, Harness: "bounds"}
-	switch cfg.Layout.Models {
-	case "autobind":
+	if cfg.Layout.Models == "autobind" {
 		for k, v := range handFiles() {
 			files[k] = v
 		}
 		cs.Harness = "bounds+calc"
-	case "autobind-self":
-		if cfg.Layout.ModelPkg == "same" {
-			files["graph/hand_models.go"] = handSelf("graph")
+	}
+	return cs
+}
+
+// materialise lays a case out on disk (paths relative to the project directory): the schema
+// files of the case go where the layout wants them, gqlgen.yml and go.mod / go.sum into the
+// module directory, plus what the layout implies (the harness program, the hand-written types of
+// the autobind-self layouts, a doc.go that names the root package, the outer go.mod of a nested
+// module).
+func materialise(c *Case) (files map[string]string, modDir string) {
+	p := c.Config.Layout.Paths()
+	in := func(rel string) string { return path.Join(p.ModDir, rel) }
+	files = map[string]string{in("gqlgen.yml"): c.Config.YAML()}
+	for k, v := range c.Files {
+		if strings.HasPrefix(k, "schema/") {
+			files[in(path.Join(p.SchemaDir, strings.TrimPrefix(k, "schema/")))] = v
 		} else {
-			files["graph/model/hand_models.go"] = handSelf("model")
+			files[in(k)] = v
 		}
 	}
-	files["cmd/harness/main.go"] = harnessSource(true, cs.Harness == "bounds+calc")
-	return cs
+	if c.Harness != "" {
+		files[in("cmd/harness/main.go")] = harnessSource(strings.HasPrefix(c.Harness, "bounds"), strings.Contains(c.Harness, "calc") || c.Harness == "methodorder", p.ExecImport)
+	}
+	if c.Config.Layout.Models == "autobind-self" {
+		files[in(path.Join(p.ModelDir, "hand_models.go"))] = handSelf(p.ModelPkg)
+	}
+	if p.ExecDir == "." {
+		files[in("doc.go")] = "// Package probe is the module root package.\npackage probe\n"
+	}
+	if p.ModDir != "" {
+		files["go.mod"] = "module outer\n\ngo 1.23.8\n"
+		files[in("go.mod")] = fmt.Sprintf("module probe\n\ngo 1.23.8\n\nrequire github.com/99designs/gqlgen v0.0.0\nrequire verif v0.0.0\n\nreplace github.com/99designs/gqlgen => %s\nreplace verif => %s\n", common.RepoDir(), common.Root)
+		if sum, err := os.ReadFile(filepath.Join(common.RepoDir(), "go.sum")); err == nil {
+			files[in("go.sum")] = string(sum)
+		}
+	}
+	return files, p.ModDir
 }
 
 func namingCase(p NamingProject, l Layout) *Case {
@@ -481,46 +511,49 @@ func smallCase(name string, files map[string]string, l Layout) *Case {
 // layouts for a small schema: those that bring their own hand-written package need autobind.
 func smallLayouts(files map[string]string) []Layout {
 	if _, ok := files["hand/models.go"]; ok {
-		return []Layout{mainF, mainB, {"single-file", "none", 2, "autobind", "same"}}
+		return []Layout{mainF, mainB, {"single-file", "none", 2, "autobind", "same", Dirs{}}}
 	}
 	return []Layout{mainA, mainC, mainD}
 }
 
 var (
-	mainA = Layout{"single-file", "single-file", 0, "generated", "separate"}
-	mainB = Layout{"follow-schema", "follow-schema", 2, "autobind", "same"}
-	mainC = Layout{"follow-schema", "follow-schema", 0, "generated", "same"}
-	mainD = Layout{"single-file", "none", 2, "generated", "separate"}
-	mainE = Layout{"follow-schema", "single-file", 2, "generated", "same"}
-	mainF = Layout{"single-file", "single-file", 0, "autobind", "separate"}
+	mainA = Layout{"single-file", "single-file", 0, "generated", "separate", Dirs{}}
+	mainB = Layout{"follow-schema", "follow-schema", 2, "autobind", "same", Dirs{}}
+	mainC = Layout{"follow-schema", "follow-schema", 0, "generated", "same", Dirs{}}
+	mainD = Layout{"single-file", "none", 2, "generated", "separate", Dirs{}}
+	mainE = Layout{"follow-schema", "single-file", 2, "generated", "same", Dirs{}}
+	mainF = Layout{"single-file", "single-file", 0, "autobind", "separate", Dirs{}}
 )
 
 // quickCases: the most fault-revealing combinations, one wave on 16 cores.
 func quickCases() []*Case {
 	var cs []*Case
+	// every value of every layout dimension, the directory dimension included, is on at least one
+	// of these projects
+	at := func(l Layout, d Dirs) Layout { l.Dirs = d; return l }
 	cs = append(cs,
 		featureCase(Config{Layout: mainA}),
-		featureCase(Config{Layout: mainB}),
-		featureCase(Config{Layout: mainC, Dev: []string{"omit_slice_element_pointers", "struct_fields_always_pointers"}}),
-		featureCase(Config{Layout: mainA, Dev: []string{"resolvers_always_return_pointers", "return_pointers_in_unmarshalinput"}}),
-		featureCase(Config{Layout: mainC, Dev: []string{"use_function_syntax_for_execution_context", "call_argument_directives_with_null"}}),
-		featureCase(Config{Layout: Layout{"single-file", "follow-schema", 2, "generated", "same"}, Dev: []string{"use_function_syntax_for_execution_context", "return_pointers_in_unmarshalinput"}}),
-		featureCase(Config{Layout: Layout{"follow-schema", "single-file", 2, "generated", "separate"}, Dev: []string{"nullable_input_omittable", "omit_complexity"}}),
-		featureCase(Config{Layout: mainB, Dev: []string{"omit_slice_element_pointers", "resolvers_always_return_pointers"}}),
-		featureCase(Config{Layout: mainD, Dev: []string{"omit_getters", "omit_root_models"}}),
-		featureCase(Config{Layout: Layout{"single-file", "follow-schema", 2, "generated", "separate"}, Dev: []string{"omit_resolver_fields", "omit_panic_handler"}}),
-		featureCase(Config{Layout: Layout{"single-file", "follow-schema", 2, "autobind", "separate"}, Dev: []string{"use_function_syntax_for_execution_context", "struct_fields_always_pointers"}}),
-		featureCase(Config{Layout: Layout{"follow-schema", "none", 0, "autobind", "same"}, Dev: []string{"nullable_input_omittable", "return_pointers_in_unmarshalinput"}}),
+		featureCase(Config{Layout: at(mainB, Dirs{Schema: "below"})}),
+		featureCase(Config{Layout: at(mainC, Dirs{Schema: "sibling"}), Dev: []string{"omit_slice_element_pointers", "struct_fields_always_pointers"}}),
+		featureCase(Config{Layout: at(mainA, Dirs{Place: "root"}), Dev: []string{"resolvers_always_return_pointers", "return_pointers_in_unmarshalinput"}}),
+		featureCase(Config{Layout: at(mainC, Dirs{Schema: "root"}), Dev: []string{"use_function_syntax_for_execution_context", "call_argument_directives_with_null"}}),
+		featureCase(Config{Layout: Layout{"single-file", "follow-schema", 2, "generated", "same", Dirs{Schema: "sibling", Place: "root", Nested: true}}, Dev: []string{"use_function_syntax_for_execution_context", "return_pointers_in_unmarshalinput"}}),
+		featureCase(Config{Layout: Layout{"follow-schema", "single-file", 2, "generated", "separate", Dirs{Schema: "parent"}}, Dev: []string{"nullable_input_omittable", "omit_complexity"}}),
+		featureCase(Config{Layout: at(mainB, Dirs{Nested: true}), Dev: []string{"omit_slice_element_pointers", "resolvers_always_return_pointers"}}),
+		featureCase(Config{Layout: at(mainD, Dirs{Schema: "below", Place: "root"}), Dev: []string{"omit_getters", "omit_root_models"}}),
+		featureCase(Config{Layout: Layout{"single-file", "follow-schema", 2, "generated", "separate", Dirs{}}, Dev: []string{"omit_resolver_fields", "omit_panic_handler"}}),
+		featureCase(Config{Layout: Layout{"single-file", "follow-schema", 2, "autobind", "separate", Dirs{}}, Dev: []string{"use_function_syntax_for_execution_context", "struct_fields_always_pointers"}}),
+		featureCase(Config{Layout: Layout{"follow-schema", "none", 0, "autobind", "same", Dirs{}}, Dev: []string{"nullable_input_omittable", "return_pointers_in_unmarshalinput"}}),
 	)
 	// the cache-lifecycle options on the one-package layouts, and the equal-typed method-order project
 	cs = append(cs,
-		featureCase(Config{Layout: Layout{"single-file", "follow-schema", 0, "generated", "same"}, Dev: []string{"skip_mod_tidy"}}),
+		featureCase(Config{Layout: Layout{"single-file", "follow-schema", 0, "generated", "same", Dirs{}}, Dev: []string{"skip_mod_tidy"}}),
 		featureCase(Config{Layout: mainB, Dev: []string{"skip_mod_tidy", "resolver.preserve_resolver"}}),
 		smallCase("methodorder", smallFeatureSchemas()["methodorder"], mainF),
 		smallCase("directivesfile", smallFeatureSchemas()["directivesfile"], mainC),
 		// autobind names the package that also receives models_gen.go (api/testdata/default's layout)
-		featureCase(Config{Layout: Layout{"single-file", "single-file", 0, "autobind-self", "separate"}}),
-		featureCase(Config{Layout: Layout{"follow-schema", "follow-schema", 2, "autobind-self", "same"}, Dev: []string{"skip_mod_tidy"}}),
+		featureCase(Config{Layout: Layout{"single-file", "single-file", 0, "autobind-self", "separate", Dirs{Place: "root"}}}),
+		featureCase(Config{Layout: Layout{"follow-schema", "follow-schema", 2, "autobind-self", "same", Dirs{Schema: "parent", Place: "root", Nested: true}}, Dev: []string{"skip_mod_tidy"}}),
 	)
 	for _, p := range namingProjects(false) {
 		l := mainA
@@ -532,24 +565,68 @@ func quickCases() []*Case {
 	return cs
 }
 
-// coveringLayouts: 12 of the 48 layouts such that every pair of values of two different layout
-// dimensions occurs together: every (exec, resolver) combination with two of the four rows of the
-// six-row array over (worker_limit, models, model package) that itself covers every pair of their values.
-func coveringLayouts() []Layout {
-	rows := [][3]string{{"0", "generated", "separate"}, {"0", "autobind", "same"}, {"2", "generated", "same"},
-		{"2", "autobind", "separate"}, {"0", "autobind-self", "separate"}, {"2", "autobind-self", "same"}}
+// layoutValues are the values of the eight layout dimensions, in the order of a Layout.
+func layoutValues(l Layout) [8]string {
+	return [8]string{l.Exec, l.Resolver, fmt.Sprint(l.Worker), l.Models, l.ModelPkg, "schema=" + l.Dirs.Schema, "place=" + l.Dirs.Place, fmt.Sprint(l.Dirs.Nested)}
+}
+
+// fullLayouts: every valid combination of all eight dimensions, in a fixed order.
+func fullLayouts() []Layout {
 	var out []Layout
-	i := 0
-	for _, e := range []string{"single-file", "follow-schema"} {
-		for _, r := range []string{"single-file", "follow-schema", "none"} {
-			for _, k := range []int{i % 6, (i + 2) % 6} {
-				w := 0
-				if rows[k][0] == "2" {
-					w = 2
+	for _, l := range allLayouts() {
+		for _, sc := range []string{"", "below", "sibling", "root", "parent"} {
+			for _, pl := range []string{"", "root"} {
+				for _, n := range []bool{false, true} {
+					t := l
+					t.Dirs = Dirs{sc, pl, n}
+					if t.Valid() {
+						out = append(out, t)
+					}
 				}
-				out = append(out, Layout{e, r, w, rows[k][1], rows[k][2]})
 			}
-			i++
+		}
+	}
+	return out
+}
+
+// coveringLayouts: a pairwise covering array over the eight layout dimensions, built greedily and
+// deterministically: every pair of values of two different dimensions that can occur together in
+// a valid layout occurs in at least one row. The first rows cover the most pairs.
+func coveringLayouts() []Layout {
+	all := fullLayouts()
+	pairsOf := func(l Layout) []string {
+		v := layoutValues(l)
+		var ps []string
+		for i := 0; i < len(v); i++ {
+			for j := i + 1; j < len(v); j++ {
+				ps = append(ps, fmt.Sprintf("%d=%s&%d=%s", i, v[i], j, v[j]))
+			}
+		}
+		return ps
+	}
+	uncovered := map[string]bool{}
+	for _, l := range all {
+		for _, p := range pairsOf(l) {
+			uncovered[p] = true
+		}
+	}
+	var out []Layout
+	for len(uncovered) > 0 {
+		best, bestN := -1, 0
+		for i, l := range all {
+			n := 0
+			for _, p := range pairsOf(l) {
+				if uncovered[p] {
+					n++
+				}
+			}
+			if n > bestN {
+				best, bestN = i, n
+			}
+		}
+		out = append(out, all[best])
+		for _, p := range pairsOf(all[best]) {
+			delete(uncovered, p)
 		}
 	}
 	return out
@@ -590,7 +667,11 @@ func thoroughCases() []*Case {
 	for _, l := range allLayouts() {
 		add(featureCase(Config{Layout: l}))
 	}
-	for _, l := range coveringLayouts() {
+	cov := coveringLayouts()
+	for _, l := range cov {
+		add(featureCase(Config{Layout: l}))
+	}
+	for _, l := range cov[:12] {
 		for _, d := range optionSets(l, 1) {
 			add(featureCase(Config{Layout: l, Dev: d}))
 		}
